@@ -106,13 +106,15 @@ def trig_pos(res):
 
 def pre_box(i):
     l, r, b, t, n, f = i[0]; return [l < r, b < t, n > 0, n < f]
+PI_LO = z3.Q(314159, 100000)     # fovy only reaches the code through tan/sin/cos (Ackermannised); the range keeps counterexample replays inside the documented domain
+def fov_ok(x): return [x > 0, x < PI_LO]
 def pre_persp(i):
-    fovy, asp, n, f = i[0]; return [asp > 0, n > 0, n < f]
+    fovy, asp, n, f = i[0]; return fov_ok(fovy) + [asp > 0, n > 0, n < f]
 def pre_persp_ne(c):
     # aspect == epsilon trips glm's assertion (known finding, reported bit-exactly by the assert_* jobs); a native replay would abort the checker
     return lambda i: pre_persp(i) + [i[0][1] != eps_of(c)]
 def pre_fov(i):
-    fov, w, h, n, f = i[0]; return [fov > 0, w > 0, h > 0, n > 0, n < f]
+    fov, w, h, n, f = i[0]; return fov_ok(fov) + [w > 0, h > 0, n > 0, n < f]
 def _aspect_eps(res, k):
     a = res.ins[0][1]; c = res.fn.ins[0][0]
     if z3.is_bv(a): return a == z3.BitVecVal(float_to_bits(2.0 ** (-23 if c == 'float' else -52), a.size()), a.size())
@@ -205,14 +207,14 @@ def job_inf(t, vs):
             hand, depth = selected(v).split('_'); k = 2 if depth == 'NO' else 1
             def spec(i, o, hand=hand, k=k):
                 return inf_goals(o[0], i, rv(o[1][0]), hand, k, z3.RealVal(1), z3.RealVal(k))
-            S.check_fn(U, 'infinitePerspective%s_%s' % (v, t), spec, lambda i: [i[0][1] > 0, i[0][2] > 0, i[1][0] >= i[0][2]], mode='real', extra_hyps=trig_pos, bounds='aspect>0, near>0, tan(fovy/2)>0; depth d >= near symbolic')
+            S.check_fn(U, 'infinitePerspective%s_%s' % (v, t), spec, lambda i: fov_ok(i[0][0]) + [i[0][1] > 0, i[0][2] > 0, i[1][0] >= i[0][2]], mode='real', extra_hyps=trig_pos, bounds='aspect>0, near>0, tan(fovy/2)>0; depth d >= near symbolic')
         if 'tweaked' in vs:
             def spec4(i, o):
                 ep = i[0][3]; return inf_goals(o[0], i, rv(o[1][0]), 'RH', 2, 1 - ep, 2 - ep)
-            S.check_fn(U, 'tweaked4_' + t, spec4, lambda i: [i[0][1] > 0, i[0][2] > 0, i[0][3] > 0, i[0][3] < 1, i[1][0] >= i[0][2]], mode='real', extra_hyps=trig_pos, bounds='aspect>0, near>0, 0<ep<1; ndc_z(d) = (1-ep) - (2-ep)*near/d')
+            S.check_fn(U, 'tweaked4_' + t, spec4, lambda i: fov_ok(i[0][0]) + [i[0][1] > 0, i[0][2] > 0, i[0][3] > 0, i[0][3] < 1, i[1][0] >= i[0][2]], mode='real', extra_hyps=trig_pos, bounds='aspect>0, near>0, 0<ep<1; ndc_z(d) = (1-ep) - (2-ep)*near/d')
             def spec3(i, o):
                 ep = eps_of(c); return inf_goals(o[0], i, rv(o[1][0]), 'RH', 2, 1 - ep, 2 - ep)
-            S.check_fn(U, 'tweaked3_' + t, spec3, lambda i: [i[0][1] > 0, i[0][2] > 0, i[1][0] >= i[0][2]], mode='real', extra_hyps=trig_pos, bounds='ep = machine epsilon of T')
+            S.check_fn(U, 'tweaked3_' + t, spec3, lambda i: fov_ok(i[0][0]) + [i[0][1] > 0, i[0][2] > 0, i[1][0] >= i[0][2]], mode='real', extra_hyps=trig_pos, bounds='ep = machine epsilon of T')
     return run
 def job_assert(t):
     """bit-precise: the only way the builders' assertions can fire for aspect > 0 (known finding: aspect == epsilon)"""
@@ -246,6 +248,13 @@ def job_dispatch(cfg, t):
                 S.rec(name='c08.dispatch.%s.%s' % (cfg, f1), kind='encode', result='unsupported', status='not-encoded', note=str(e), mandatory=True, functions=[f1])
                 S.inconclusive.append('c08.dispatch.%s.%s [not encoded: %s]' % (cfg, f1, e)); continue
             n = len(r1.outs[0]); hy = r1.axioms + r2.axioms
+            try:        # translator validation of both terms against native execution on sampled inputs
+                for rr in (r1, r2):
+                    ncmp, bad = validate_translation(rr, S.rnd, 3 if S.quick else 8)
+                    S.validated += ncmp
+                    if bad: S.engine_errors.append('%s: symbolic term disagrees with native execution: %s' % (rr.fn.name, json.dumps(bad[0])))
+            except Exception as e:
+                S.rec(name='c08.dispatch.%s.%s.validate' % (cfg, f1), kind='validate', result='error', status='skipped', note=str(e)[:300], mandatory=False)
             # identical term DAGs are the common case: the goal then simplifies to true without the solver doing any work
             for k in range(n):
                 a, b = r1.outs[0][k], r2.outs[0][k]
@@ -254,8 +263,20 @@ def job_dispatch(cfg, t):
                     o1 = Ux.call_native(f1, vals); o2 = Ux.call_native(f2, vals)
                     info = {'unit': Ux.name, 'fn': f1, 'inputs': [[hex(x) for x in r] for r in vals], 'native': hex(o1[0][k]), 'native_selected': hex(o2[0][k]), 'property': 'C08'}
                     return ('reproduced' if o1[0][k] != o2[0][k] else 'not-reproduced'), info
-                S.prove('c08.dispatch.%s.%s==%s[%d]' % (cfg, f1, f2, k), a.bits == b.bits, hy, timeout=S.cap(30, 60), kind='spec', functions=['w_' + f1, 'w_' + f2],
-                        bounds='bit-exact, all inputs; config ' + cfg + '; ll=' + Ux.ll_sha(), replay=replay)
+                nm = 'c08.dispatch.%s.%s==%s[%d]' % (cfg, f1, f2, k)
+                r, m = S.prove(nm, a.bits == b.bits, hy, timeout=S.cap(30, 60), kind='spec', functions=['w_' + f1, 'w_' + f2],
+                               bounds='bit-exact, all inputs; config ' + cfg + '; ll=' + Ux.ll_sha(), replay=replay)
+                if r == 'unknown':
+                    # the terms differ and the solver found neither proof nor model: help the model search with pinned candidate inputs
+                    # (a verdict still needs a solver model reproduced natively; the obligation above stays inconclusive otherwise)
+                    for h in range(4):
+                        pins = []
+                        for (c_, n_), terms in zip(r1.fn.ins, r1.ins):
+                            for tt in terms:
+                                if ct_kind(c_) == 'f': pins.append(tt == z3.BitVecVal(float_to_bits(round(S.rnd.uniform(0.5, 4.0), 2), tt.size()), tt.size()))
+                                else: pins.append(tt == z3.BitVecVal(S.rnd.randint(1, 9), tt.size()))
+                        r_, m_ = S.prove(nm + '.hint%d' % h, a.bits == b.bits, hy + pins, timeout=20, kind='spec', functions=['w_' + f1, 'w_' + f2], bounds='model search with pinned inputs', replay=replay, mandatory=False)
+                        if r_ == 'sat': break
         # the mutant twin: the unsuffixed builder must differ from a NON-selected variant somewhere
         if not S.quick:
             other = {'RH_NO': 'LH_ZO', 'LH_NO': 'RH_ZO', 'RH_ZO': 'LH_NO', 'LH_ZO': 'RH_NO'}[cfg]
@@ -293,20 +314,21 @@ def job_project(t):
                     for (zc, wz) in ((zn, 0), (1, 1)):
                         ins = [[z3.RealVal(a), z3.RealVal(b), z3.RealVal(zc)], IDENT, IDENT, vp]
                         def spec(i, o, a=a, b=b, wz=wz):
-                            return [('x', REq(rv(o[0][0]), vp[0] + (vp[2] if a == 1 else 0))), ('y', REq(rv(o[0][1]), vp[1] + (vp[3] if b == 1 else 0))), ('depth', REq(rv(o[0][2]), z3.RealVal(wz)))]
+                            w_ = i[3]; return [('x', REq(rv(o[0][0]), w_[0] + (w_[2] if a == 1 else 0))), ('y', REq(rv(o[0][1]), w_[1] + (w_[3] if b == 1 else 0))), ('depth', REq(rv(o[0][2]), z3.RealVal(wz)))]
                         S.check_fn(U, 'project%s_%s' % (v, t), spec, None, mode='real', ins=ins, name='c08.project%s_%s.cube(%d,%d,%d)' % (v, t, a, b, zc), witness=False,
                                    bounds='clip-cube corner, model = proj = I, symbolic viewport')
     return run
-def sparse_setup(general):
-    """inputs for the round trip: model affine (rows 0-2 symbolic, last row 0 0 0 1), proj with the union of the ortho and perspective sparsity patterns"""
-    p = [z3.Real('p%d' % k) for k in range(3)]; vp = [z3.Real('vp%d' % k) for k in range(4)]
-    if general:
-        model = [z3.Real('m%d' % k) for k in range(16)]; proj = [z3.Real('q%d' % k) for k in range(16)]
-    else:
-        model = [z3.Real('m%d' % k) if k % 4 != 3 else z3.RealVal(1 if k == 15 else 0) for k in range(16)]
-        nz = (0, 5, 8, 9, 10, 11, 12, 13, 14, 15)
-        proj = [z3.Real('q%d' % k) if k in nz else z3.RealVal(0) for k in range(16)]
-    return p, model, proj, vp
+PROJ_NZ = (0, 5, 8, 9, 10, 11, 12, 13, 14, 15)      # union of the sparsity patterns of every builder in matrix_clip_space.inl
+def symmat(n, nz=None, diag1=()):
+    return [z3.Real('%s%d' % (n, k)) if (nz is None or k in nz) else z3.RealVal(1 if k in diag1 else 0) for k in range(16)]
+FAMILIES = {   # name -> (model, proj, mandatory)
+    'model=I,proj=builder-pattern': lambda: (IDENT, symmat('q', PROJ_NZ)),
+    'model=affine,proj=I': lambda: (symmat('m', (0, 1, 2, 4, 5, 6, 8, 9, 10, 12, 13, 14), (15,)), IDENT),
+    'model=translate*scale,proj=builder-pattern': lambda: (symmat('m', (0, 5, 10, 12, 13, 14), (15,)), symmat('q', PROJ_NZ)),
+    'model=affine,proj=perspective-pattern': lambda: (symmat('m', (0, 1, 2, 4, 5, 6, 8, 9, 10, 12, 13, 14), (15,)), symmat('q', (0, 5, 10, 11, 14))),
+    'general': lambda: (symmat('m'), symmat('q')),
+}
+MANDATORY_FAM = ('model=I,proj=builder-pattern', 'model=affine,proj=I', 'model=translate*scale,proj=builder-pattern')
 def det4(M):
     M = [rv(x) for x in M]
     def m(r, c): return M[c * 4 + r]
@@ -314,29 +336,37 @@ def det4(M):
         a = [[m(r, c) for c in cols] for r in rows]
         return a[0][0] * (a[1][1] * a[2][2] - a[1][2] * a[2][1]) - a[0][1] * (a[1][0] * a[2][2] - a[1][2] * a[2][0]) + a[0][2] * (a[1][0] * a[2][1] - a[1][1] * a[2][0])
     return sum(((-1) ** c) * m(0, c) * det3((1, 2, 3), [x for x in range(4) if x != c]) for c in range(4))
-def job_roundtrip(t, general):
+def cof4(M, r, c):
+    M = [rv(x) for x in M]
+    rows = [x for x in range(4) if x != r]; cols = [x for x in range(4) if x != c]
+    a = [[M[cc * 4 + rr] for cc in cols] for rr in rows]
+    d = a[0][0] * (a[1][1] * a[2][2] - a[1][2] * a[2][1]) - a[0][1] * (a[1][0] * a[2][2] - a[1][2] * a[2][0]) + a[0][2] * (a[1][0] * a[2][1] - a[1][1] * a[2][0])
+    return d if (r + c) % 2 == 0 else -d
+def win_to_ndc(w, vp, depth):
+    return [2 * (w[0] - vp[0]) / vp[2] - 1, 2 * (w[1] - vp[1]) / vp[3] - 1, (2 * w[2] - 1) if depth == 'NO' else w[2], z3.RealVal(1)]
+def job_roundtrip(t, fams):
+    """unProject(project(p)) == p, and project-spec(unProject(win)) == win, on families of (model, proj)"""
+    def PMof(i): return matmul(i[2], i[1])
     def run(S):
-        for v in ('NO', 'ZO'):
-            p, model, proj, vp = sparse_setup(general); ins = [p, model, proj, vp]
-            PM = matmul(proj, model)
-            hy = lambda i: [det4(PM) != 0, mulv(PM, [p[0], p[1], p[2], 1])[3] != 0, vp[2] != 0, vp[3] != 0]
-            tag = 'general' if general else 'affine-model,sparse-proj'
-            S.check_fn(U, 'unproj_proj%s_%s' % (v, t), lambda i, o: [('p[%d]' % k, REq(rv(o[0][k]), p[k])) for k in range(3)], hy, mode='real', ins=ins, side=False, witness=not general,
-                       name='c08.unproj_proj%s_%s.%s' % (v, t, tag), timeout=S.cap(100, 300), mandatory=not general, bounds='unProject(project(p)) == p; det(proj*model) != 0, clip w != 0, viewport w,h != 0; ' + tag)
-    return run
-def job_roundtrip2(t):
-    """project(unProject(win)) == win for model = I and a sparse projection"""
-    def run(S):
-        for v in ('NO', 'ZO'):
-            p, model, proj, vp = sparse_setup(False); ins = [p, IDENT, proj, vp]
-            res = {}
-            def hy(i):
-                return [det4(proj) != 0, vp[2] != 0, vp[3] != 0]
-            def xh(res):
-                # the un-projected homogeneous w must be non-zero for the point to exist
-                return []
-            S.check_fn(U, 'proj_unproj%s_%s' % (v, t), lambda i, o: [('win[%d]' % k, REq(rv(o[0][k]), p[k])) for k in range(3)], hy, mode='real', ins=ins, side=False,
-                       name='c08.proj_unproj%s_%s' % (v, t), timeout=S.cap(100, 300), mandatory=False, bounds='project(unProject(win)) == win; model = I, sparse proj, det != 0')
+        for fam in fams:
+            mand = fam in MANDATORY_FAM
+            for v in ('NO', 'ZO'):
+                p = [z3.Real('p%d' % k) for k in range(3)]; vp = [z3.Real('vp%d' % k) for k in range(4)]
+                model, proj = FAMILIES[fam](); ins = [p, model, proj, vp]
+                hy = lambda i: [det4(PMof(i)) != 0, mulv(PMof(i), [i[0][0], i[0][1], i[0][2], 1])[3] != 0, i[3][2] != 0, i[3][3] != 0]
+                S.check_fn(U, 'unproj_proj%s_%s' % (v, t), lambda i, o: [('p[%d]' % k, REq(rv(o[0][k]), i[0][k])) for k in range(3)], hy, mode='real', ins=ins, side=False,
+                           name='c08.unproj_proj%s_%s.%s' % (v, t, fam), timeout=S.cap(40, 120), mandatory=mand, bounds='unProject(project(p)) == p; det(proj*model) != 0, clip w != 0, viewport w,h != 0; ' + fam)
+                # direct specification of unProject: r = unProject(win) satisfies proj*model*(r,1) = lambda * ndc(win)  (i.e. project(r) == win)
+                def wadj(i, v=v):       # det * (inverse(PM) * ndc).w : the un-projected point must be finite
+                    n = win_to_ndc(i[0], i[3], v); PM = PMof(i)
+                    return sum(cof4(PM, cc, 3) * n[cc] for cc in range(4))
+                hy2 = lambda i: [det4(PMof(i)) != 0, wadj(i) != 0, i[3][2] != 0, i[3][3] != 0]
+                def spec(i, o, v=v):
+                    n = win_to_ndc(i[0], i[3], v)
+                    c_ = mulv(PMof(i), [rv(x) for x in o[0]] + [1])
+                    return [('clip[%d]~ndc' % k, REq(c_[k], n[k] * c_[3])) for k in range(3)]
+                S.check_fn(U, 'unProject%s_%s' % (v, t), spec, hy2, mode='real', ins=ins, name='c08.unProject%s_%s.%s' % (v, t, fam), timeout=S.cap(40, 120), mandatory=mand,
+                           bounds='proj*model*(unProject(win),1) is parallel to ndc(win); det != 0, un-projected w != 0, viewport w,h != 0; ' + fam)
     return run
 def job_pick(t):
     def run(S):
@@ -366,9 +396,9 @@ def jobs(tier):
     for t in FT:
         J += [('ortho_' + t, job_ortho(t, ['2d'] + VARS9)), ('frustum_' + t, job_frustum(t, VARS9)), ('perspective_' + t, job_persp(t, VARS9)), ('perspectiveFov_' + t, job_fov(t, VARS9)),
               ('equiv_' + t, job_equiv(t, FULL)), ('infinite_' + t, job_inf(t, INFV + ['tweaked'])), ('assert_' + t, job_assert(t)), ('project_' + t, job_project(t)), ('pick_' + t, job_pick(t)),
-              ('roundtrip_' + t, job_roundtrip(t, False))]
+              ('roundtrip_' + t, job_roundtrip(t, MANDATORY_FAM))]
         for cfg in CONFIGS: J.append(('dispatch_%s_%s' % (cfg, t), job_dispatch(cfg, t)))
     if not q:
         for t in FT:
-            J += [('roundtrip_general_' + t, job_roundtrip(t, True)), ('roundtrip2_' + t, job_roundtrip2(t)), ('project_ivp_' + t, job_project_ivp(t))]
+            J += [('roundtrip_opt1_' + t, job_roundtrip(t, ['model=affine,proj=perspective-pattern'])), ('roundtrip_opt2_' + t, job_roundtrip(t, ['general'])), ('project_ivp_' + t, job_project_ivp(t))]
     return J
